@@ -193,16 +193,45 @@ func (p *Project) MergeProfiles(jdk string, os ActivationOS) (err error) {
 	if len(activeProfiles) == 0 {
 		activeProfiles = defaultProfiles
 	}
+	// Maven keeps the last of several declarations of one dependency in a POM,
+	// at the position of the first.
+	p.Dependencies = mergeDominant(p.Dependencies, nil)
 	for _, prof := range activeProfiles {
 		// Properties in active profiles should overwrite global properties.
 		prof.Properties.merge(p.Properties)
 		p.Properties = prof.Properties
 
-		p.DependencyManagement.merge(prof.DependencyManagement)
-		p.Dependencies = append(p.Dependencies, prof.Dependencies...)
+		// So should dependencies and dependency management.
+		if len(prof.DependencyManagement.Dependencies) > 0 {
+			p.DependencyManagement.Dependencies = mergeDominant(p.DependencyManagement.Dependencies, prof.DependencyManagement.Dependencies)
+		}
+		p.Dependencies = mergeDominant(p.Dependencies, prof.Dependencies)
 		p.Repositories = append(p.Repositories, prof.Repositories...)
 	}
 	return
+}
+
+// mergeDominant appends src to dst; a later declaration of a dependency
+// replaces an earlier one with the same key, in place.
+func mergeDominant(dst, src []Dependency) []Dependency {
+	if len(dst)+len(src) == 0 {
+		return dst
+	}
+	index := make(map[DependencyKey]int, len(dst)+len(src))
+	result := make([]Dependency, 0, len(dst)+len(src))
+	for _, deps := range [][]Dependency{dst, src} {
+		for _, dep := range deps {
+			d := dep // Key fills in the default type.
+			dk := d.Key()
+			if i, ok := index[dk]; ok {
+				result[i] = dep
+				continue
+			}
+			index[dk] = len(result)
+			result = append(result, dep)
+		}
+	}
+	return result
 }
 
 func appendError(e1, e2 error) error {
